@@ -24,11 +24,12 @@ for rel, kind in sorted(expect.items()):
     pkg = re.search(r'^package (\w+)', src, re.M).group(1)
     d = {'proto': 'proto', 'ch': '.', 'chpool': 'chpool', 'compress': 'compress'}[pkg]
     tests = '|'.join(re.findall(r'func (Test\w+)', src))
+    tags = '-tags purego ' if re.search(r'^//go:build purego', src, re.M) else ''
     with tempfile.TemporaryDirectory() as td:
         ov = os.path.join(td, 'ov.json')
         json.dump({'Replace': {os.path.join('/repo', d, 'zz_verif_recipe_test.go'): path}}, open(ov, 'w'))
         t0 = time.time()
-        p = subprocess.run('ulimit -v 8388608; go test -overlay %s -vet=off -count=1 -timeout 120s -run "^(%s)$" .' % (ov, tests),
+        p = subprocess.run('ulimit -v 8388608; go test %s-overlay %s -vet=off -count=1 -timeout 120s -run "^(%s)$" .' % (tags, ov, tests),
                            shell=True, cwd=os.path.join('/repo', d), env=env, capture_output=True, text=True, executable='/bin/bash')
     passed = p.returncode == 0
     results.append({'recipe': rel, 'listed_as': kind, 'passed_on_current_tree': passed, 'seconds': round(time.time() - t0, 1)})
